@@ -32,9 +32,9 @@ def main():
     scratch = "--scratch" in sys.argv   # work on a copy of /repo (VERIF_REPO) instead of /repo itself
     global REPO
     env = dict(os.environ)
-    env["VERIF_EVIDENCE_DIR"] = "/tmp/vseed-evidence"
+    env["VERIF_EVIDENCE_DIR"] = "/tmp/vseed-evidence-%d" % os.getpid()
     if scratch:
-        REPO = "/tmp/vseed-repo"
+        REPO = "/tmp/vseed-repo-%d" % os.getpid()   # one scratch copy per invocation: runs may overlap
         sh(["rm", "-rf", REPO])
         sh(["rsync", "-a", "--exclude", ".git", "/repo/", REPO + "/"])
         sh(["git", "init", "-q"], cwd=REPO)
